@@ -409,3 +409,18 @@ Proof.
   assert (W : forall t, pND (pt t)) by (intros t; apply compileP_wf; intros v; apply pND_single).
   split; [apply allnz_prune|]. split; [apply allnz_prune|]. split; apply W.
 Qed.
+
+(** ** leaves that are instances of the shipped classes *)
+Lemma class_leaf_one_gradient :
+  forall ops, ops_ok ops = true -> let s := run ops in
+  forall (cls : String.string) (declared : bool) f t1 t2,
+    (f < nfun s)%nat -> f_reuse (getf s f) = leaf_reuse cls declared ->
+    class_forced cls = true \/ declared = true ->
+    In t1 (f_pts (getf s f)) -> In t2 (f_pts (getf s f)) ->
+    dict_eqb Nat.eqb (xof t1) (xof t2) = true ->
+    forall (E : ips) (rho : nat -> E), veq (evalP rho (gof t1)) (evalP rho (gof t2)).
+Proof.
+  intros ops Hok s cls d f t1 t2 Hf Hr Hc H1 H2 He.
+  apply (read_I2 (run ops) (inv_partial ops Hok) f t1 t2 Hf); auto.
+  fold s. rewrite Hr. unfold leaf_reuse. destruct Hc as [-> | ->]; [reflexivity|apply orb_true_r].
+Qed.
